@@ -6,18 +6,30 @@
 #   run.sh baseline-off               run the repository's own test suite with the verif guard OFF
 set -u
 cd "$(dirname "$0")"
-export VERIF_ROOT="$PWD"
+export VERIF_HOME="$PWD"
+# VERIF_OUT (optional): write work/, replays/ and evidence/ there instead of here (used for runs against seeded changes)
+export VERIF_ROOT="${VERIF_OUT:-$PWD}"
 export GOFLAGS=-mod=mod GOPROXY=off GOSUMDB=off GOTOOLCHAIN=local
 GO=/root/go/pkg/mod/golang.org/toolchain@v0.0.1-go1.24.0.linux-amd64/bin/go
 if [ ! -x "$GO" ]; then GO=$(command -v go1.26.8 || command -v go); fi
-mkdir -p work replays evidence
+mkdir -p "$VERIF_ROOT/work" "$VERIF_ROOT/replays" "$VERIF_ROOT/evidence"
+BIN="$VERIF_ROOT/work/bin"; mkdir -p "$BIN"
+
+# VERIF_REPO (optional): build against another checkout of onflow/atree instead of /repo (scratch worktrees with a
+# seeded change). Registered checks never set it: they always rebuild from /repo's current working tree.
+MODFLAG=""
+if [ -n "${VERIF_REPO:-}" ]; then
+  sed "s#=> /repo#=> $VERIF_REPO#" harness/go.mod > "$VERIF_ROOT/work/alt.mod"
+  cp harness/go.sum "$VERIF_ROOT/work/alt.sum"
+  MODFLAG="-modfile=$VERIF_ROOT/work/alt.mod"
+fi
 
 build() { # $1 = output name, rest = extra flags
   local out=$1; shift
-  (cd harness && "$GO" build -tags verif "$@" -o "$out" . ) 2> work/build-$out.log
+  (cd harness && "$GO" build $MODFLAG -tags verif "$@" -o "$BIN/$out" . ) 2> "$VERIF_ROOT/work/build-$out.log"
   local rc=$?
   if [ $rc -ne 0 ]; then
-    echo "BUILD-FAILED flavour=$out (see work/build-$out.log)"; head -30 work/build-$out.log
+    echo "BUILD-FAILED flavour=$out (see work/build-$out.log)"; head -30 "$VERIF_ROOT/work/build-$out.log"
     return 1
   fi
   return 0
@@ -32,9 +44,9 @@ case "${1:-}" in
   replay)
     build verif || exit 2
     prop=$(python3 -c "import json,sys;print(json.load(open(sys.argv[1]))['property'])" "$2" 2>/dev/null)
-    bin=./harness/verif
-    if ./harness/verif list | grep -q "^$prop true"; then build verif-race -race || exit 2; bin=./harness/verif-race; fi
-    exec $bin replay "$2"
+    bin="$BIN/verif"
+    if "$BIN/verif" list | grep -q "^$prop true"; then build verif-race -race || exit 2; bin="$BIN/verif-race"; fi
+    exec "$bin" replay "$2"
     ;;
   baseline-off)
     cd /repo && exec "$GO" test -vet=off -count=1 -timeout 25m ./...
@@ -42,9 +54,9 @@ case "${1:-}" in
   C[0-9][0-9])
     prop=$1; tier=${2:-quick}
     build verif || exit 2
-    bin=./harness/verif
-    if ./harness/verif list | grep -q "^$prop true"; then build verif-race -race || exit 2; bin=./harness/verif-race; fi
-    exec $bin run --prop "$prop" --tier "$tier"
+    bin="$BIN/verif"
+    if "$BIN/verif" list | grep -q "^$prop true"; then build verif-race -race || exit 2; bin="$BIN/verif-race"; fi
+    exec "$bin" run --prop "$prop" --tier "$tier"
     ;;
   *)
     echo "usage: run.sh setup | <Cxx> <quick|thorough> | replay <file> | baseline-off"; exit 2
